@@ -86,12 +86,17 @@ def spStr : Option (Option (Int × Nat)) → String
   | some none => "none"
   | some (some (o, d)) => s!"{o}@{d}"
 
+/-- one request is atomic: fields / keys inside it are rendered sorted by name (the harness does
+    the same); hex keeps the byte order -/
+def sortStr (l : List String) : List String := l.mergeSort (fun a b => decide (a ≤ b))
+
 def fvStr (es : List Entry) : String :=
   if es.isEmpty then "." else
-  ",".intercalate (es.map (fun e => Hex.encode (fieldName e.key) ++ ":" ++ Hex.encode e.val))
+  let items := es.map (fun e => (Hex.encode (fieldName e.key), Hex.encode e.val))
+  ",".intercalate ((items.mergeSort (fun a b => decide (a.1 ≤ b.1))).map (fun p => p.1 ++ ":" ++ p.2))
 
 def keysStr (ks : List Bytes) : String :=
-  if ks.isEmpty then "." else ",".intercalate (ks.map Hex.encode)
+  if ks.isEmpty then "." else ",".intercalate (sortStr (ks.map Hex.encode))
 
 def reqStr : Req → String
   | .hsetCp db name es => s!"hset {db} {Hex.encode name} {fvStr es}"
